@@ -1186,7 +1186,9 @@ class GenA:
                 # never inside the process-global JSON codec context: an asynchronous exception
                 # there leaks module state of the standard library's json, which is outside every
                 # listed property and would poison the rest of the run
-                if op["op"] not in ("evict", "import", "json_nested", "restart") and \
+                # ... nor inside Dimension.define: interrupted half-way it leaves the exponent tuples of
+                # all dimensions half re-keyed, a process-wide corruption no listed property is about
+                if op["op"] not in ("evict", "import", "json_nested", "restart", "dim_define") and \
                         not str(op.get("codec", "")).startswith("json_ctx"):
                     op["inject"] = {
                         "ordinal": rng.choice([1, 2, 3, 5, 8, 13, 21, 34, 55, 89]),
